@@ -192,3 +192,99 @@ def always_terminates(body):
     if isinstance(last, ast.If):
         return bool(last.orelse) and always_terminates(last.body) and always_terminates(last.orelse)
     return False
+
+
+class Resolver:
+    """Recognition aid: names bound exactly once (not by a loop) to a plain read - a name, attribute, subscript, constant or arithmetic of those - are replaced by
+    that read, recursively, so that `k = n[i]; ... a[0:k]` is matched as `a[0:n[i]]`.  Used only to RECOGNISE an idiom (the value a local had when it was bound and
+    the value of the read at the point of use can differ if the base was mutated in between; rules that depend on that order check it separately)."""
+
+    def __init__(self, fnode, max_depth=4):
+        self.defs = LocalDefs(fnode)
+        self.max_depth = max_depth
+
+    @staticmethod
+    def _plain(e):
+        return all(isinstance(x, (ast.Name, ast.Attribute, ast.Subscript, ast.Constant, ast.BinOp, ast.UnaryOp, ast.Slice, ast.Tuple, ast.operator, ast.unaryop, ast.expr_context)) for x in ast.walk(e))
+
+    def resolve(self, expr, depth=0):
+        import copy
+        outer = self
+
+        class T(ast.NodeTransformer):
+            def visit_Name(self_, n):
+                if isinstance(n.ctx, ast.Load) and depth < outer.max_depth:
+                    ds = outer.defs.defs.get(n.id, [])
+                    if len(ds) == 1 and ds[0][1] is None and not ds[0][2] and outer._plain(ds[0][0]) and not any(isinstance(x, ast.Name) and x.id == n.id for x in ast.walk(ds[0][0])):
+                        return outer.resolve(ds[0][0], depth + 1)
+                return n
+        return T().visit(copy.deepcopy(expr))
+
+    def norm(self, expr):
+        return norm(self.resolve(expr))
+
+
+class InterDefs:
+    """Def-use closure across a function and the functions of its module that it calls (two levels): a helper's parameter continues into the argument expressions
+    at its call sites, a call to a helper continues into the helper's return expressions.  scope = [FuncInfo]; closure() yields (FuncInfo, node)."""
+
+    def __init__(self, program, root, depth=2):
+        from .loader import FuncInfo
+        self.P = program
+        self.root = root
+        self.scope = [root]
+        self.sites = {}      # helper key -> [(caller FuncInfo, call node)]
+        frontier = [(root, 0)]
+        while frontier:
+            f, d = frontier.pop()
+            for n in ast.walk(f.node):
+                if isinstance(n, ast.Call):
+                    tgt = program.resolve_expr(f.module, n.func, f)
+                    if isinstance(tgt, FuncInfo) and tgt.module is root.module and tgt.cls is None and tgt.node is not root.node:
+                        self.sites.setdefault(tgt.key, []).append((f, n))
+                        if tgt.key not in {g.key for g in self.scope} and d < depth:
+                            self.scope.append(tgt)
+                            frontier.append((tgt, d + 1))
+        self.ldefs = {g.key: LocalDefs(g.node) for g in self.scope}
+        self.by_key = {g.key: g for g in self.scope}
+
+    def stmts(self):
+        for g in self.scope:
+            for st in iter_stmts(g.node.body):
+                yield g, st
+
+    def walk(self):
+        for g in self.scope:
+            for n in ast.walk(g.node):
+                yield g, n
+
+    def closure(self, f, expr, limit=400):
+        from .loader import FuncInfo
+        seen = set()
+        out = []
+        work = [(f, expr)]
+        while work and len(out) < limit:
+            g, e = work.pop()
+            out.append((g, e))
+            for n in ast.walk(e):
+                if isinstance(n, ast.Name) and (g.key, n.id) not in seen:
+                    seen.add((g.key, n.id))
+                    for (v, _i, _l) in self.ldefs[g.key].defs.get(n.id, []):
+                        work.append((g, v))
+                    params = g.params()
+                    if n.id in params and g.node is not self.root.node:
+                        i = params.index(n.id)
+                        for caller, call in self.sites.get(g.key, []):
+                            if i < len(call.args):
+                                work.append((caller, call.args[i]))
+                            for k in call.keywords:
+                                if k.arg == n.id:
+                                    work.append((caller, k.value))
+                elif isinstance(n, ast.Call):
+                    tgt = self.P.resolve_expr(g.module, n.func, g)
+                    if isinstance(tgt, FuncInfo) and tgt.key in self.by_key and ("ret", tgt.key) not in seen:
+                        seen.add(("ret", tgt.key))
+                        for r in ast.walk(tgt.node):
+                            if isinstance(r, ast.Return) and r.value is not None:
+                                work.append((tgt, r.value))
+        return out
